@@ -56,6 +56,13 @@ ResourceChanged(s, p, mid, con) ==
   IN [s EXCEPT !.res[p] = [seq |-> r.seq + 1,
                            obs |-> SelectSeq(bumped, LAMBDA o : o.unacked <= s.limit)]]
 
+\* n non-confirmable rounds in a row with one message id, in closed form (counts do not move, nobody is
+\* evicted unless already over the limit at the first of them, the id is set, the sequence advances by n);
+\* MC_Observe checks the closed form against n single rounds for n = 0..3
+ChangedMany(s, p, mid, n) ==
+  IF n = 0 \/ ~Present(s, p) THEN s
+  ELSE LET one == ResourceChanged(s, p, mid, FALSE) IN [one EXCEPT !.res[p].seq = s.res[p].seq + n]
+
 \* what the property pins for a round (C15 / 4.23): with no record nothing is created;
 \* with a record and at least one observer the sequence is exactly +1; with a record and
 \* no observer +0 and +1 are both acceptable
@@ -81,6 +88,7 @@ ObsApply(s, c) ==
   CASE c.op = "register"   -> Register(s, c.ep, c.tok, c.p)
     [] c.op = "deregister" -> Deregister(s, c.ep, c.tok, c.p)
     [] c.op = "changed"    -> ResourceChanged(s, c.p, c.mid, c.con)
+    [] c.op = "changed_many" -> ChangedMany(s, c.p, c.mid, c.n)
     [] c.op = "ack"        -> Acknowledge(s, c.ep, c.mid)
     [] c.op = "limit"      -> SetLimit(s, c.n)
 
